@@ -25,14 +25,28 @@ def digit_statements(v, f):
     digits, touch = [], []
     src = P(sample, "coefsT")
     cells = {}
+    # a working copy of the input: memcpy(buf, sample->coefsT, N*4) or buf[j] = sample->coefsT[j] over [0,N)
+    work = {"kind": "in_place", "array": src}
+    strip_ = lambda t: strip_(t[2]) if t and t[0] == "cast" else t
+    for p in ps:
+        if p["kind"] == "call" and p["name"] in ("memcpy", "std::memcpy", "memmove") and len(p["args"]) == 3 and strip_(p["args"][1]) == src and not p["loops"]:
+            work = {"kind": "copy", "array": strip_(p["args"][0]), "bytes": p["args"][2], "line": p["line"]}
+        elif p["kind"] == "store" and len(p["loops"]) == 1 and p["op"] == "=" and p["val"] == sym.idx(src, p["loops"][0]["var"]) and \
+                p["lv"][0] == "idx" and p["lv"][2] == p["loops"][0]["var"] and sym.root_of(p["lv"]) != sym.sym(res):
+            work = {"kind": "copy", "array": p["lv"][1], "loop": p["loops"][0], "line": p["line"]}
+    warr = work["array"]
+    on_work = lambda ptr: work["kind"] == "copy" and (ptr == warr or sym.contains(ptr, warr))
     for p in ps:
         if p["kind"] == "store" and p["lv"][0] == "var" and p["op"] == "=":
             cells[p["lv"]] = p["val"]
     for p in ps:
         if p["kind"] == "store" and sym.root_of(p["lv"]) == sym.sym(res):
             digits.append({"loops": p["loops"], "lv": p["lv"], "val": p["val"], "line": p["line"], "via": "C"})
-        elif p["kind"] == "store" and sym.root_of(p["lv"]) == sym.sym(sample):
-            touch.append({"loops": p["loops"], "lv": p["lv"], "op": p["op"], "val": p["val"], "line": p["line"], "via": "C"})
+        elif p["kind"] == "store" and work["kind"] == "copy" and work.get("loop") is not None and p["line"] == work["line"]:
+            continue            # the copy statement itself
+        elif p["kind"] == "store" and (sym.root_of(p["lv"]) == sym.sym(sample) or on_work(p["lv"])):
+            touch.append({"loops": p["loops"], "lv": p["lv"], "op": p["op"], "val": p["val"], "line": p["line"], "via": "C",
+                          "on_input": sym.root_of(p["lv"]) == sym.sym(sample) and not on_work(p["lv"])})
         elif p["kind"] == "asm":
             x = p["eff"]
             items = asm.inline_items(x["node"]["template"])
@@ -55,7 +69,8 @@ def digit_statements(v, f):
                 rec = {"loops": p["loops"] + [lp], "lv": sym.idx(ptr, lane), "val": val, "line": p["line"], "via": "asm"}
                 if sym.root_of(ptr) == sym.sym(res):
                     digits.append(rec)
-                elif sym.root_of(ptr) == sym.sym(sample):
+                elif sym.root_of(ptr) == sym.sym(sample) or on_work(ptr):
+                    rec["on_input"] = sym.root_of(ptr) == sym.sym(sample) and not on_work(ptr)
                     # add/remove: value is load(ptr) (+|-) bcast
                     d = sym.sub(val, sym.idx(ptr, lane))
                     opn, operand = ("+=", d)
@@ -64,6 +79,7 @@ def digit_statements(v, f):
                         opn, operand = "-=", sym.neg(d)
                     rec.update(op=opn, val=operand)
                     touch.append(rec)
+    digit_statements.work = work
     return digits, touch, None
 
 
@@ -78,171 +94,202 @@ def run(chk):
     chk.trusted = ["clang 14 front end", "summariser", "AT&T parser and lane evaluator", "bit-field algebra"]
     chk.assume("the asm loops are bottom-tested over N/8 vectors: N is a multiple of 8 and >= 8 (ring degree 1024, C19.R3)")
     for v in prog.variants():
-        vn = v.name
         chk.analysed["variants"] = chk.analysed.get("variants", 0) + 1
-        f = v.fn(FN)
-        res, sample, params = [p["n"] for p in f.params]
-        rel = bounds.ctor_relations(v)
-        roots = {sym.sym(p["n"]): p["t"] for p in f.params}
-        R = lambda t: bounds.apply_relations(v, t, roots, rel)
-        B = P(params, "Bgbit")
-        L = P(params, "l")
-        N = sym.arrow(P(params, "tlwe_params"), "N")
-        digits, touch, err = digit_statements(v, f)
-        if digits is None:
-            chk.broken(err)
-        chk.vcount(vn, "R1.digit_statements", len(digits))
-        chk.vcount(vn, "R4.input_touching_statements", len(touch))
-        if len(digits) != 1:
-            chk.broken("%s: expected one digit statement, found %d" % (FN, len(digits)))
-        d = digits[0]
-        via = d["via"]
-        if len(d["loops"]) != 2:
-            chk.broken("digit statement is not in a (p, j) nest")
-        pl, jl = d["loops"]
-        pv, jv = pl["var"], jl["var"]
-        # value = field - H
-        val = R(d["val"])
-        items = sym.poly_items(val)
-        fld_atom = [m[0] for m, c in items if c == 1 and len(m) == 1 and bits.field_of(m[0]) is not None]
-        key1 = "digit fields ((x+offset) >> s_p) & maskMod tile the top l*Bgbit bits [%s path]" % via
-        if len(fld_atom) != 1:
-            anded = [m[0] for m, c in items if len(m) == 1 and m[0][0] == "op" and m[0][1] == "&"]
-            if anded:
-                chk.refuted("R1", key1, where="%s:%s" % (f.file, d["line"]),
-                            detail="digit is %s: mask %s is not 2^w - 1" % (sym.show(val)[:120], sym.show(anded[0][3])[:60]), variant=vn)
+        check_variant(chk, v)
+
+
+def check_variant(chk, v):
+    vn = v.name
+    f = v.fn(FN)
+    res, sample, params = [p["n"] for p in f.params]
+    rel = bounds.ctor_relations(v)
+    roots = {sym.sym(p["n"]): p["t"] for p in f.params}
+    R = lambda t: bounds.apply_relations(v, t, roots, rel)
+    B = P(params, "Bgbit")
+    L = P(params, "l")
+    N = sym.arrow(P(params, "tlwe_params"), "N")
+    digits, touch, err = digit_statements(v, f)
+    work = getattr(digit_statements, "work", {"kind": "in_place", "array": P(sample, "coefsT")})
+    warr = work["array"]
+    if digits is None:
+        chk.broken(err)
+    chk.vcount(vn, "R1.digit_statements", len(digits))
+    chk.vcount(vn, "R4.input_touching_statements", len(touch))
+    if len(digits) != 1:
+        chk.broken("%s: expected one digit statement, found %d" % (FN, len(digits)))
+    d = digits[0]
+    via = d["via"]
+    if len(d["loops"]) != 2:
+        chk.broken("digit statement is not in a (p, j) nest")
+    pl, jl = d["loops"]
+    pv, jv = pl["var"], jl["var"]
+    # value = field - H
+    val = R(d["val"])
+    items = sym.poly_items(val)
+    fld_atom = [m[0] for m, c in items if c == 1 and len(m) == 1 and bits.field_of(m[0]) is not None]
+    key1 = "digit fields ((x+offset) >> s_p) & maskMod tile the top l*Bgbit bits [%s path]" % via
+    if len(fld_atom) != 1:
+        anded = [m[0] for m, c in items if len(m) == 1 and m[0][0] == "op" and m[0][1] == "&"]
+        if anded:
+            chk.refuted("R1", key1, where="%s:%s" % (f.file, d["line"]),
+                        detail="digit is %s: mask %s is not 2^w - 1" % (sym.show(val)[:120], sym.show(anded[0][3])[:60]), variant=vn)
+            return
+        chk.broken("digit value %s not recognised" % sym.show(val))
+    x, shift, width = bits.field_of(fld_atom[0])
+    ok, detail, lowest = bits.tiling(shift, width, pv, L)
+    chk.require(ok and width == B, "R1", key1, where="%s:%s" % (f.file, d["line"]), ok=detail + "; mask width = Bgbit",
+                bad=detail if not ok else "mask is %s bits wide, Bgbit is %s" % (sym.show(width), sym.show(B)), variant=vn)
+    # source is the input coefficient at the same position
+    srcx = x
+    while srcx[0] == "cast":
+        srcx = srcx[2]
+    chk.require(srcx == sym.idx(warr, jv) and d["lv"] == sym.idx(sym.fld(sym.idx(sym.sym(res), pv), "coefs"), jv)
+                and (pl["lo"], pl["cmp"], pl["hi"]) == (ZERO, "<", L) and jl["lo"] == ZERO and R(jl["hi"]) == N,
+                "R5", "every coefficient position j in [0,N) of every digit p in [0,l) is computed from input coefficient j alone [%s path]" % via,
+                where="%s:%s" % (f.file, d["line"]), ok="result[p].coefs[j] from %s[j], p < l, j < N" % ("sample->coefsT" if work["kind"] == "in_place" else "the working copy of sample->coefsT"),
+                bad="dst %s from %s over p in [%s,%s), j in [%s,%s)" % (sym.show(d["lv"]), sym.show(srcx), sym.show(pl["lo"]), sym.show(pl["hi"]),
+                                                                        sym.show(jl["lo"]), sym.show(jl["hi"])), variant=vn)
+    # R2: subtract halfBg; offset adds halfBg to every field
+    rest = sym.sub(val, fld_atom[0])
+    e_half = bits.pow2_exp(sym.neg(rest))
+    key2 = "each digit subtracts Bg/2 and the offset adds Bg/2 to every field [%s path]" % via
+    problems = []
+    if e_half is None or e_half != sym.sub(B, I(1)):
+        problems.append("digit = field %+s: the subtracted constant is not 2^(Bgbit-1) (digits would lie in [0,Bg) instead of [-Bg/2,Bg/2): "
+                        "noise power x4)" % sym.show(rest))
+    # constructor: offset = halfBg * sum_{i<l} 2^(shift_i)
+    ctor = [c for c in v.defined() if c.get("record") == "TGswParams" and c.get("kind") == "ctor" and not c.get("implicit")][0]
+    cps, _ = summ.pieces(v, ctor, hooks=NOINLINE)
+    cn = {p["n"]: sym.sym(p["n"]) for p in ctor.params}
+    acc = [p for p in cps if p["kind"] == "local" and p["op"] == "+=" and len(p["loops"]) == 1]
+    offs = [p for p in cps if p["kind"] == "store" and p["lv"] == sym.arrow(sym.sym("this"), "offset")]
+    base = [p for p in offs if p["op"] == "=" and not p["guards"] and not p["loops"]]
+    extras = [p for p in offs if p not in base]
+    if len(acc) != 1 or len(base) != 1:
+        chk.broken("TGswParams constructor: offset construction not recognised (%d accumulations, %d assignments)" % (len(acc), len(base)))
+    else:
+        al = acc[0]["loops"][0]
+        e_acc = bits.pow2_exp(acc[0]["val"])
+        want = sym.subst(shift, {pv: al["var"], B: cn["Bgbit"]})
+        if e_acc != want:
+            problems.append("offset accumulates 2^(%s), field p sits at 2^(%s)" % (sym.show(e_acc) if e_acc else sym.show(acc[0]["val"]), sym.show(want)))
+        if (al["lo"], al["cmp"], al["hi"]) != (ZERO, "<", cn["l"]):
+            problems.append("offset accumulates over [%s,%s), not [0,l)" % (sym.show(al["lo"]), sym.show(al["hi"])))
+        ov = base[0]["val"]
+        fac = set()
+        for m, c in sym.poly_items(ov):
+            fac.update(m)
+        if sym.arrow(sym.sym("this"), "halfBg") not in fac or len(fac) != 2:
+            problems.append("offset = %s is not halfBg * (sum of field weights)" % sym.show(ov))
+        # any further contribution e to the offset is not cancelled by the digits: the recomposition becomes
+        # trunc_step(x + e), whose distance to x stays below step = 2^(32 - l*Bgbit) iff 0 <= e < step
+        hstores = [p for p in cps if p["kind"] == "store" and p["loops"] and p["lv"][0] == "idx" and bits.pow2_exp(p["val"]) is not None]
+        step_e = sym.sub(I(32), sym.mul(cn["l"], cn["Bgbit"]))
+        for xp in extras:
+            ev = xp["val"]
+            if xp["op"] == "-=":
+                problems.append("offset -= %s (line %s): a negative shift of the recomposition is not cancelled by the digits" % (sym.show(ev), xp["line"]))
                 continue
-            chk.broken("digit value %s not recognised" % sym.show(val))
-        x, shift, width = bits.field_of(fld_atom[0])
-        ok, detail, lowest = bits.tiling(shift, width, pv, L)
-        chk.require(ok and width == B, "R1", key1, where="%s:%s" % (f.file, d["line"]), ok=detail + "; mask width = Bgbit",
-                    bad=detail if not ok else "mask is %s bits wide, Bgbit is %s" % (sym.show(width), sym.show(B)), variant=vn)
-        # source is the input coefficient at the same position
-        srcx = x
-        while srcx[0] == "cast":
-            srcx = srcx[2]
-        chk.require(srcx == sym.idx(P(sample, "coefsT"), jv) and d["lv"] == sym.idx(sym.fld(sym.idx(sym.sym(res), pv), "coefs"), jv)
-                    and (pl["lo"], pl["cmp"], pl["hi"]) == (ZERO, "<", L) and jl["lo"] == ZERO and R(jl["hi"]) == N,
-                    "R5", "every coefficient position j in [0,N) of every digit p in [0,l) is computed from input coefficient j alone [%s path]" % via,
-                    where="%s:%s" % (f.file, d["line"]), ok="result[p].coefs[j] from sample->coefsT[j], p < l, j < N",
-                    bad="dst %s from %s over p in [%s,%s), j in [%s,%s)" % (sym.show(d["lv"]), sym.show(srcx), sym.show(pl["lo"]), sym.show(pl["hi"]),
-                                                                            sym.show(jl["lo"]), sym.show(jl["hi"])), variant=vn)
-        # R2: subtract halfBg; offset adds halfBg to every field
-        rest = sym.sub(val, fld_atom[0])
-        e_half = bits.pow2_exp(sym.neg(rest))
-        key2 = "each digit subtracts Bg/2 and the offset adds Bg/2 to every field [%s path]" % via
-        problems = []
-        if e_half is None or e_half != sym.sub(B, I(1)):
-            problems.append("digit = field %+s: the subtracted constant is not 2^(Bgbit-1) (digits would lie in [0,Bg) instead of [-Bg/2,Bg/2): "
-                            "noise power x4)" % sym.show(rest))
-        # constructor: offset = halfBg * sum_{i<l} 2^(shift_i)
-        ctor = [c for c in v.defined() if c.get("record") == "TGswParams" and c.get("kind") == "ctor" and not c.get("implicit")][0]
-        cps, _ = summ.pieces(v, ctor, hooks=NOINLINE)
-        cn = {p["n"]: sym.sym(p["n"]) for p in ctor.params}
-        acc = [p for p in cps if p["kind"] == "local" and p["op"] == "+=" and len(p["loops"]) == 1]
-        offs = [p for p in cps if p["kind"] == "store" and p["lv"] == sym.arrow(sym.sym("this"), "offset")]
-        base = [p for p in offs if p["op"] == "=" and not p["guards"] and not p["loops"]]
-        extras = [p for p in offs if p not in base]
-        if len(acc) != 1 or len(base) != 1:
-            chk.broken("TGswParams constructor: offset construction not recognised (%d accumulations, %d assignments)" % (len(acc), len(base)))
-        else:
-            al = acc[0]["loops"][0]
-            e_acc = bits.pow2_exp(acc[0]["val"])
-            want = sym.subst(shift, {pv: al["var"], B: cn["Bgbit"]})
-            if e_acc != want:
-                problems.append("offset accumulates 2^(%s), field p sits at 2^(%s)" % (sym.show(e_acc) if e_acc else sym.show(acc[0]["val"]), sym.show(want)))
-            if (al["lo"], al["cmp"], al["hi"]) != (ZERO, "<", cn["l"]):
-                problems.append("offset accumulates over [%s,%s), not [0,l)" % (sym.show(al["lo"]), sym.show(al["hi"])))
-            ov = base[0]["val"]
-            fac = set()
-            for m, c in sym.poly_items(ov):
-                fac.update(m)
-            if sym.arrow(sym.sym("this"), "halfBg") not in fac or len(fac) != 2:
-                problems.append("offset = %s is not halfBg * (sum of field weights)" % sym.show(ov))
-            # any further contribution e to the offset is not cancelled by the digits: the recomposition becomes
-            # trunc_step(x + e), whose distance to x stays below step = 2^(32 - l*Bgbit) iff 0 <= e < step
-            hstores = [p for p in cps if p["kind"] == "store" and p["loops"] and p["lv"][0] == "idx" and bits.pow2_exp(p["val"]) is not None]
-            step_e = sym.sub(I(32), sym.mul(cn["l"], cn["Bgbit"]))
-            for xp in extras:
-                ev = xp["val"]
-                if xp["op"] == "-=":
-                    problems.append("offset -= %s (line %s): a negative shift of the recomposition is not cancelled by the digits" % (sym.show(ev), xp["line"]))
-                    continue
-                if xp["op"] != "+=" or xp["loops"]:
-                    chk.broken("TGswParams constructor: offset statement at line %s not recognised" % xp["line"])
-                if ev == ZERO:
-                    continue
-                # resolve a read of the gadget table written in the same constructor
-                if len(hstores) == 1:
-                    hv, hl_ = hstores[0]["val"], hstores[0]["loops"][0]["var"]
-                    reads = [a for a in sym.atoms(ev) if a[0] == "idx" and a[1] == hstores[0]["lv"][1]]
-                    ev = sym.rewrite(ev, {a: sym.subst(hv, {hl_: a[2]}) for a in reads})
-                ee = bits.pow2_exp(ev)
-                if ee is None:
-                    chk.broken("TGswParams constructor: extra offset term %s at line %s is not a power of two" % (sym.show(ev), xp["line"]))
-                facts = affine.guard_constraints(xp["guards"]) + [sym.sub(cn["l"], I(1)), sym.sub(cn["Bgbit"], I(1))]
-                if affine.prove_nonneg(sym.sub(sym.sub(step_e, ee), I(1)), facts) and affine.prove_nonneg(ee, facts):
-                    continue          # 0 < e < step: a rounding offset inside the last step
-                if affine.prove_nonneg(sym.sub(ee, step_e), facts):
-                    problems.append("offset += %s = 2^(%s) at line %s%s: not cancelled by the digits, the recomposition is shifted by "
-                                    "at least the whole precision step 2^(%s) (error reaches the bound for inputs that are multiples of the step)" % (
-                                        sym.show(xp["val"]), sym.show(ee), xp["line"],
-                                        " under %s" % [sym.show(g) for g in xp["guards"]] if xp["guards"] else "", sym.show(step_e)))
-                else:
-                    chk.broken("TGswParams constructor: cannot compare the extra offset term 2^(%s) with the step 2^(%s)" % (sym.show(ee), sym.show(step_e)))
-        adds = [t for t in touch if t["op"] == "+="]
-        if len(adds) != 1 or R(adds[0]["val"]) != P(params, "offset") and adds[0]["val"] != P(params, "offset"):
-            problems.append("the offset is not added to the input before extraction: %s" % [(t["op"], sym.show(t["val"])) for t in touch])
-        elif adds[0]["line"] > d["line"]:
-            problems.append("offset added after the digits are extracted")
-        chk.require(not problems, "R2", key2, where="%s:%s" % (f.file, d["line"]),
-                    ok="digit = field - 2^(Bgbit-1); offset = halfBg * sum_{i<l} 2^(32-(i+1)Bgbit), added over [0,N) before extraction",
-                    bad="; ".join(problems)[:500], variant=vn)
-        # R3 gadget
-        hs = [p for p in cps if p["kind"] == "store" and p["loops"] and p["lv"][0] == "idx" and
-              sym.show(p["lv"][1]).endswith("h") or (p["kind"] == "store" and p["loops"] and p["lv"][0] == "idx" and p["lv"][1][0] == "new")]
-        hs = [p for p in cps if p["kind"] == "store" and p["loops"] and bits.pow2_exp(p["val"]) is not None]
-        okh = False
-        det = "no gadget table statement found"
-        if len(hs) == 1:
-            hl = hs[0]["loops"][0]
-            eh = bits.pow2_exp(hs[0]["val"])
-            want = sym.subst(shift, {pv: hl["var"], B: cn["Bgbit"]})
-            okh = eh == want and (hl["lo"], hl["cmp"], hl["hi"]) == (ZERO, "<", cn["l"]) and hs[0]["lv"][2] == hl["var"]
-            det = "h[i] = 2^(%s) for i in [%s,%s)" % (sym.show(eh), sym.show(hl["lo"]), sym.show(hl["hi"]))
-        chk.require(okh, "R3", "gadget h[p] equals the weight 2^(32-(p+1)Bgbit) of digit field p", where=ctor.where, ok=det, bad=det, variant=vn)
-        # derived constants
-        want_rel = {("TGswParams", "Bg"): lambda t: bits.pow2_exp(t) is not None,
-                    ("TGswParams", "halfBg"): lambda t: True, ("TGswParams", "maskMod"): lambda t: True}
-        Bg = R(P(params, "Bg"))
-        half = R(P(params, "halfBg"))
-        mm = R(P(params, "maskMod"))
-        okc = bits.pow2_exp(Bg) == B and bits.pow2_exp(half) == sym.sub(B, I(1)) and bits.mask_width(mm) == B
-        chk.require(okc, "R1", "Bg = 2^Bgbit, halfBg = Bg/2, maskMod = Bg-1 (constructor)", where=ctor.where,
-                    ok="Bg=%s halfBg=%s maskMod=%s" % (sym.show(Bg), sym.show(half), sym.show(mm)),
-                    bad="Bg=%s halfBg=%s maskMod=%s" % (sym.show(Bg), sym.show(half), sym.show(mm)), variant=vn)
-        # R4 restore
-        pidx = 1
+            if xp["op"] != "+=" or xp["loops"]:
+                chk.broken("TGswParams constructor: offset statement at line %s not recognised" % xp["line"])
+            if ev == ZERO:
+                continue
+            # resolve a read of the gadget table written in the same constructor
+            if len(hstores) == 1:
+                hv, hl_ = hstores[0]["val"], hstores[0]["loops"][0]["var"]
+                reads = [a for a in sym.atoms(ev) if a[0] == "idx" and a[1] == hstores[0]["lv"][1]]
+                ev = sym.rewrite(ev, {a: sym.subst(hv, {hl_: a[2]}) for a in reads})
+            ee = bits.pow2_exp(ev)
+            if ee is None:
+                chk.broken("TGswParams constructor: extra offset term %s at line %s is not a power of two" % (sym.show(ev), xp["line"]))
+            facts = affine.guard_constraints(xp["guards"]) + [sym.sub(cn["l"], I(1)), sym.sub(cn["Bgbit"], I(1))]
+            if affine.prove_nonneg(sym.sub(sym.sub(step_e, ee), I(1)), facts) and affine.prove_nonneg(ee, facts):
+                continue          # 0 < e < step: a rounding offset inside the last step
+            if affine.prove_nonneg(sym.sub(ee, step_e), facts):
+                problems.append("offset += %s = 2^(%s) at line %s%s: not cancelled by the digits, the recomposition is shifted by "
+                                "at least the whole precision step 2^(%s) (error reaches the bound for inputs that are multiples of the step)" % (
+                                    sym.show(xp["val"]), sym.show(ee), xp["line"],
+                                    " under %s" % [sym.show(g) for g in xp["guards"]] if xp["guards"] else "", sym.show(step_e)))
+            else:
+                chk.broken("TGswParams constructor: cannot compare the extra offset term 2^(%s) with the step 2^(%s)" % (sym.show(ee), sym.show(step_e)))
+    adds = [t for t in touch if t["op"] == "+="]
+    if len(adds) != 1 or R(adds[0]["val"]) != P(params, "offset") and adds[0]["val"] != P(params, "offset"):
+        problems.append("the offset is not added to the input before extraction: %s" % [(t["op"], sym.show(t["val"])) for t in touch])
+    elif adds[0]["line"] > d["line"]:
+        problems.append("offset added after the digits are extracted")
+    chk.require(not problems, "R2", key2, where="%s:%s" % (f.file, d["line"]),
+                ok="digit = field - 2^(Bgbit-1); offset = halfBg * sum_{i<l} 2^(32-(i+1)Bgbit), added over [0,N) before extraction",
+                bad="; ".join(problems)[:500], variant=vn)
+    # R3 gadget
+    hs = [p for p in cps if p["kind"] == "store" and p["loops"] and p["lv"][0] == "idx" and
+          sym.show(p["lv"][1]).endswith("h") or (p["kind"] == "store" and p["loops"] and p["lv"][0] == "idx" and p["lv"][1][0] == "new")]
+    hs = [p for p in cps if p["kind"] == "store" and p["loops"] and bits.pow2_exp(p["val"]) is not None]
+    okh = False
+    det = "no gadget table statement found"
+    if len(hs) == 1:
+        hl = hs[0]["loops"][0]
+        eh = bits.pow2_exp(hs[0]["val"])
+        want = sym.subst(shift, {pv: hl["var"], B: cn["Bgbit"]})
+        okh = eh == want and (hl["lo"], hl["cmp"], hl["hi"]) == (ZERO, "<", cn["l"]) and hs[0]["lv"][2] == hl["var"]
+        det = "h[i] = 2^(%s) for i in [%s,%s)" % (sym.show(eh), sym.show(hl["lo"]), sym.show(hl["hi"]))
+    chk.require(okh, "R3", "gadget h[p] equals the weight 2^(32-(p+1)Bgbit) of digit field p", where=ctor.where, ok=det, bad=det, variant=vn)
+    # derived constants
+    want_rel = {("TGswParams", "Bg"): lambda t: bits.pow2_exp(t) is not None,
+                ("TGswParams", "halfBg"): lambda t: True, ("TGswParams", "maskMod"): lambda t: True}
+    Bg = R(P(params, "Bg"))
+    half = R(P(params, "halfBg"))
+    mm = R(P(params, "maskMod"))
+    okc = bits.pow2_exp(Bg) == B and bits.pow2_exp(half) == sym.sub(B, I(1)) and bits.mask_width(mm) == B
+    chk.require(okc, "R1", "Bg = 2^Bgbit, halfBg = Bg/2, maskMod = Bg-1 (constructor)", where=ctor.where,
+                ok="Bg=%s halfBg=%s maskMod=%s" % (sym.show(Bg), sym.show(half), sym.show(mm)),
+                bad="Bg=%s halfBg=%s maskMod=%s" % (sym.show(Bg), sym.show(half), sym.show(mm)), variant=vn)
+    # R4 restore
+    pidx = 1
+    if work["kind"] == "in_place":
         okb, detb = c15.balanced_const_writes(v, f, pidx)
         chk.require(okb, "R4", "the offset added to the const input is removed over the same range [%s path]" % via, where=f.where,
                     ok=detb, bad=detb, variant=vn)
-        # R6 wrapper
-        w = v.fn("tGswTLweDecompH")
-        wps, _ = summ.pieces(v, w, hooks=NOINLINE)
-        wr, ws, wp = [p["n"] for p in w.params]
-        calls = [p for p in wps if p["kind"] == "call" and p["name"] == FN]
-        okw = False
-        detw = "calls: %s" % [summ.show_piece(c) for c in calls]
-        if len(calls) == 1 and len(calls[0]["loops"]) == 1:
-            lp = calls[0]["loops"][0]
-            i = lp["var"]
-            hi = lp["hi"] if lp["cmp"] == "<" else sym.add(lp["hi"], I(1))
-            K = sym.arrow(P(wp, "tlwe_params"), "k")
-            a = calls[0]["args"]
-            okw = lp["lo"] == ZERO and hi == sym.add(K, I(1)) and a[0] == sym.padd(sym.sym(wr), sym.mul(i, P(wp, "l"))) and \
-                a[1] == sym.addr(sym.idx(P(ws, "a"), i)) and a[2] == sym.sym(wp)
-            detw = "component i in [0,k] -> digits [i*l, (i+1)*l)"
-        chk.require(okw, "R6", "tGswTLweDecompH decomposes all k+1 polynomials into disjoint windows of l digits", where=w.where,
-                    ok=detw, bad=detw, variant=vn)
-        chk.proved("R6", "%s build uses the %s path and yields the same (shift, mask, subtract) triple" % (v.cfg, via),
-                   where="%s:%s" % (f.file, d["line"]), detail="shift 32-(p+1)Bgbit, mask 2^Bgbit-1, minus 2^(Bgbit-1)", variant=vn)
+    else:
+        # the routine works on a copy: the input must not be written at all, the copy must be complete and private to the call
+        wrote = [t for t in touch if t.get("on_input")]
+        full = False
+        if "bytes" in work:
+            nb = work["bytes"]
+            while nb[0] == "cast":
+                nb = nb[2]
+            full = R(nb) == sym.mul(I(4), N)
+        elif work.get("loop") is not None:
+            lpw = work["loop"]
+            full = (lpw["lo"], lpw["cmp"]) == (ZERO, "<") and R(lpw["hi"]) == N
+        chk.require(not wrote and full, "R4", "the input is left untouched: the offset is applied to a complete working copy [%s path]" % via,
+                    where="%s:%s" % (f.file, work["line"]), ok="copy of all N coefficients at line %s; no statement writes the input" % work["line"],
+                    bad=("the input is still written at line %s" % wrote[0]["line"]) if wrote else "the copy does not cover N coefficients", variant=vn)
+        root = sym.root_of(warr)
+        private = root is not None and root[0] in ("new", "obj", "var") and not any(root == sym.sym(q["n"]) for q in f.params)
+        chk.require(private, "R7", "the working copy is private to the call [%s path]" % via, where="%s:%s" % (f.file, work["line"]),
+                    ok="local buffer %s" % sym.show(warr)[:60],
+                    bad="the working copy is %s, storage reached through parameter '%s': it is shared by every call that uses the same object "
+                        "(all threads evaluating with one key share its parameter objects), so concurrent decompositions read each other's "
+                        "coefficients and the digits no longer recompose to the input" % (sym.show(warr), root[1] if root and root[0] == "sym" else "?"),
+                    variant=vn)
+    # R6 wrapper
+    w = v.fn("tGswTLweDecompH")
+    wps, _ = summ.pieces(v, w, hooks=NOINLINE)
+    wr, ws, wp = [p["n"] for p in w.params]
+    calls = [p for p in wps if p["kind"] == "call" and p["name"] == FN]
+    okw = False
+    detw = "calls: %s" % [summ.show_piece(c) for c in calls]
+    if len(calls) == 1 and len(calls[0]["loops"]) == 1:
+        lp = calls[0]["loops"][0]
+        i = lp["var"]
+        hi = lp["hi"] if lp["cmp"] == "<" else sym.add(lp["hi"], I(1))
+        K = sym.arrow(P(wp, "tlwe_params"), "k")
+        a = calls[0]["args"]
+        okw = lp["lo"] == ZERO and hi == sym.add(K, I(1)) and a[0] == sym.padd(sym.sym(wr), sym.mul(i, P(wp, "l"))) and \
+            a[1] == sym.addr(sym.idx(P(ws, "a"), i)) and a[2] == sym.sym(wp)
+        detw = "component i in [0,k] -> digits [i*l, (i+1)*l)"
+    chk.require(okw, "R6", "tGswTLweDecompH decomposes all k+1 polynomials into disjoint windows of l digits", where=w.where,
+                ok=detw, bad=detw, variant=vn)
+    chk.proved("R6", "%s build uses the %s path and yields the same (shift, mask, subtract) triple" % (v.cfg, via),
+               where="%s:%s" % (f.file, d["line"]), detail="shift 32-(p+1)Bgbit, mask 2^Bgbit-1, minus 2^(Bgbit-1)", variant=vn)
+
